@@ -338,6 +338,9 @@ Section Model.
     | Some (b, x), Some (_, Some m) => vclose (oTolP o) (mv m x) b
     | _, _ => false
     end.
+  (* when a probe was taken it must fit, whatever happened afterwards (e.g. ARPACK raised) *)
+  Definition probe_if_any (c : libcall) (o : obs) : bool :=
+    match oProbe o with None => true | Some _ => probe_ok c o end.
 
   (* oLevel 0: everything; 1: dispatch only (the library raised / the matrix class changed in a history);
      2: the library call could not be recorded: the module's own output serves as the oracle value
@@ -348,7 +351,7 @@ Section Model.
      match rc with
      | Err e => match oFun o, oOut o with None, Err e' => err_eqb e e' | _, _ => false end
      | Ok c =>
-         (Nat.eqb (oLevel o) 2 || dispatch_ok c o) &&
+         (Nat.eqb (oLevel o) 2 || dispatch_ok c o) && probe_if_any c o &&
          (Nat.eqb (oLevel o) 1 ||
           ((Nat.eqb (oLevel o) 2 || probe_ok c o) &&
            contract_ok (oTolC o) (cA c) (cM c) (oRawW o) (oRawQ o) &&
